@@ -233,6 +233,10 @@ func c07Mutants(p *c07Prog, s *c07Site, lines []string) []c07Mutant {
 			extra := &c07Exp{kind: 'S', keys: append(append([]string{}, w.keys...), "zz_extra"), elems: append(append([]*c07Exp{}, w.elems...), c07Int(7))}
 			value("struct-extra-field", wrap(extra), t)
 		}
+		// a reference of the right type, one array level too deep
+		if _, ok := s.b.Exp.(*syntax.RefExp); ok {
+			raw("ref-depth+1", "["+strings.TrimSpace(m[5])+"]", here)
+		}
 		// references to things that do not exist
 		if s.where != "top" {
 			raw("no-such-call", "ZZ_NOCALL.out", here)
